@@ -405,3 +405,45 @@ Example C15_nonvacuous_normal :
 Proof.
   split; [simpl; lra|]. split; [discriminate|]. split; [apply pdfN_pos; lra|]. split; [reflexivity|]. intros; exact I.
 Qed.
+
+(* ==== PHASE 4: the triangle distribution as an explicit density over R (tent min(l(x), r(x)) clipped at 0, written with |.|), and
+   total mass 1 of the uniform distribution tied to the closed-form moments of the Qc model ==== *)
+Theorem C15_triangle_density_properties : forall A C B x,
+  continuous (pdfT A C B) x /\ 0 <= pdfT A C B x /\ (A < C -> C < B -> A < x < B -> 0 < pdfT A C B x).
+Proof. intros A C B x. split; [apply pdfT_continuous | split; [apply pdfT_nonneg | apply pdfT_pos]]. Qed.
+Theorem C15_triangle_moment_hypotheses_real : forall A C B x1 x2,
+  x1 <= x2 ->
+  0 <= mom0 (pdfT A C B) x1 x2 /\ x1 * mom0 (pdfT A C B) x1 x2 <= mom1 (pdfT A C B) x1 x2
+  /\ mom1 (pdfT A C B) x1 x2 <= x2 * mom0 (pdfT A C B) x1 x2.
+Proof. exact triangle_moment_hypotheses. Qed.
+Theorem C15_wtrap_triangle_probability_real : forall A C B x tlo thi,
+  incR x -> x <> [] -> 0 <= tlo -> 0 <= thi ->
+  (forall w, In w (weightsR tlo thi (density_ivals (pdfT A C B) x)) -> 0 <= w) /\
+  sumR (weightsR tlo thi (density_ivals (pdfT A C B) x)) = tlo + RInt (pdfT A C B) (firstR x) (lastR x) + thi.
+Proof. exact triangle_weights_probability. Qed.
+Theorem C15_triangle_midpoint : forall A C B a b,
+  A < C -> C < B -> A <= a -> a < b -> b <= B ->
+  exists m, (a < m < b /\ RInt (pdfT A C B) a m = RInt (pdfT A C B) m b) /\
+            forall m', a < m' < b /\ RInt (pdfT A C B) a m' = RInt (pdfT A C B) m' b -> m' = m.
+Proof. exact triangle_midpoint. Qed.
+(* the closed-form zeroth moment of the Qc model (Model/UQ.uni_m0) IS the integral of the uniform density; total mass 1; on every grid
+   A = x_0 < ... < x_n = B the real weights are non-negative and sum to exactly 1 *)
+Theorem C15_uniform_moment0_is_integral : forall A B x1 x2 : Qc,
+  A <> B -> QcR (uni_m0 A B x1 x2) = RInt (fun _ => / (QcR B - QcR A)) (QcR x1) (QcR x2).
+Proof. exact uniform_moment0_is_integral. Qed.
+Theorem C15_uniform_total_mass : forall A B : R, A < B -> RInt (fun _ => / (B - A)) A B = 1.
+Proof. exact uniform_total_mass. Qed.
+Theorem C15_uniform_weights_sum_one_real : forall (A B : R) x,
+  A < B -> incR x -> x <> [] -> firstR x = A -> lastR x = B ->
+  (forall w, In w (weightsR 0 0 (density_ivals (fun _ => / (B - A)) x)) -> 0 <= w) /\
+  sumR (weightsR 0 0 (density_ivals (fun _ => / (B - A)) x)) = 1.
+Proof. exact uniform_weights_sum_one. Qed.
+Print Assumptions C15_triangle_density_properties.
+Print Assumptions C15_triangle_moment_hypotheses_real.
+Print Assumptions C15_wtrap_triangle_probability_real.
+Print Assumptions C15_triangle_midpoint.
+Print Assumptions C15_uniform_moment0_is_integral.
+Print Assumptions C15_uniform_total_mass.
+Print Assumptions C15_uniform_weights_sum_one_real.
+Example C15_nonvacuous_triangle_real : 0 < pdfT 0 (3 / 10) 1 (1 / 2) /\ incR [0; 1 / 4; 1] /\ firstR [0; 1 / 4; 1] = 0 /\ lastR [0; 1 / 4; 1] = 1.
+Proof. split; [apply pdfT_pos; lra|]. split; [simpl; lra|]. split; reflexivity. Qed.
